@@ -43,6 +43,7 @@ D == T.obs.diags                      \* <<kind, severity, sl, sc, el, ec, name>
 SevOf(k) == IF k = "UnusedVar" THEN 2 ELSE 1
 Matches(i, x) == D[i][2] = SevOf(x[1]) /\ <<D[i][3], D[i][4], D[i][5], D[i][6]>> = <<x[2], x[3], x[4], x[5]>> /\ D[i][7] = x[6]
 ExpSet == {T.expnames[i] : i \in 1..Len(T.expnames)}
+MaybeSet == IF "maybe" \in DOMAIN T THEN {T.maybe[i] : i \in 1..Len(T.maybe)} ELSE {}
 CountObs(x) == Cardinality({i \in 1..Len(D) : Matches(i, x)})
 ObsNameIdx == {i \in 1..Len(D) : D[i][1] \in NameKinds}
 C16_Checker ==
@@ -51,8 +52,8 @@ C16_Checker ==
         \/ Report("C16", "a statically valid script received an error-severity diagnostic", CHOOSE j \in 1..Len(D) : D[j][2] = 1))
   /\ (T.obs.panic # "" \/ (\A x \in ExpSet : CountObs(x) = 1)
         \/ Report("C16", "an undeclared use / repeated declaration / unused variable is not reported exactly once at its token", 0))
-  /\ (T.obs.panic # "" \/ (\A i \in ObsNameIdx : \E x \in ExpSet : Matches(i, x))
-        \/ Report("C16", "a variable was reported although it is declared once and used", CHOOSE j \in ObsNameIdx : ~\E x \in ExpSet : Matches(j, x)))
+  /\ (T.obs.panic # "" \/ (\A i \in ObsNameIdx : \E x \in ExpSet \cup MaybeSet : Matches(i, x))
+        \/ Report("C16", "a variable was reported although it is declared once and used", CHOOSE j \in ObsNameIdx : ~\E x \in ExpSet \cup MaybeSet : Matches(j, x)))
 \* ---- C17: the same text checked and executed (variable values of the declared types)
 StaticClasses == {"TypeError", "UnboundVariableErr", "UnboundFunctionErr", "BadArityErr", "InvalidTypeErr"}
 ShapeClasses == {"InvalidUnboundedInSendAll", "InvalidAllotmentInSendAll"}
